@@ -253,6 +253,40 @@ theorem flattenTables_ideal {β : Type} (keys : List String) (hn : keys.Nodup) (
 
 /-! ### E. `readETData` around an ideal reader -/
 
+theorem nodup_eraseDups : ∀ (l : List Nat), l.eraseDups.Nodup
+  | [] => by simp
+  | a :: as => by
+    rw [List.eraseDups_cons]
+    have : (as.filter fun b => !b == a).length < as.length + 1 := Nat.lt_succ_of_le (List.length_filter_le _ _)
+    refine List.nodup_cons.mpr ⟨?_, nodup_eraseDups _⟩
+    rw [List.mem_eraseDups]; simp
+termination_by l => l.length
+
+theorem eraseDups_of_nodup : ∀ (l : List Nat), l.Nodup → l.eraseDups = l
+  | [], _ => by simp
+  | a :: as, h => by
+    rw [List.eraseDups_cons]
+    have hn := List.nodup_cons.mp h
+    have hf : (as.filter fun b => !b == a) = as := by
+      rw [List.filter_eq_self]
+      intro b hb
+      have : b ≠ a := fun e => hn.1 (e ▸ hb)
+      simp [this]
+    rw [hf, eraseDups_of_nodup as hn.2]
+
+theorem strict_of_sorted_nodup {l : List Nat} (h1 : l.Pairwise (· ≤ ·)) (h2 : l.Nodup) : l.Pairwise (· < ·) :=
+  (h1.and h2).imp (fun h => Nat.lt_of_le_of_ne h.1 h.2)
+
+theorem sortedSet_strict (its : List Nat) : (sortedSet its).Pairwise (· < ·) := by
+  unfold sortedSet
+  exact strict_of_sorted_nodup (sortNat_sorted _) (((sortNat_perm _).nodup_iff).mpr (nodup_eraseDups its))
+
+/-- `sorted(set(l))` of a strictly increasing list is the list -/
+theorem sortedSet_of_strict (l : List Nat) (h : l.Pairwise (· < ·)) : sortedSet l = l := by
+  unfold sortedSet
+  rw [eraseDups_of_nodup l (h.imp (fun h => Nat.ne_of_lt h))]
+  exact sortNat_eq_of_perm (List.Perm.refl l) h
+
 theorem hits_filter (todo : List (Nat × List Nat)) (iit : Nat) :
     hits (todo.filter fun rl => !rl.2.isEmpty) iit = hits todo iit := by
   unfold hits
@@ -335,7 +369,8 @@ the chosen restart at that iteration -/
 theorem readETData_auto {β : Type} (usechk : Bool) (cats : List Cat) (hnd : (cats.map (·.num)).Nodup)
     (keys : List String) (hk : keys.Nodup) (cell : Nat → String → Nat → β)
     (reader : Nat → List Nat → Option (Table β))
-    (hr : ∀ r l, l ≠ [] → (∀ it ∈ l, pick usechk cats it = some r) → reader r l = some (ideal keys cell r l))
+    (hr : ∀ r l, l ≠ [] → l.Pairwise (· < ·) → (∀ it ∈ l, pick usechk cats it = some r) →
+      reader r l = some (ideal keys cell r l))
     (its : List Nat) :
     readETData usechk cats none its reader
       = if rowsOf usechk cats its = [] then none
@@ -349,6 +384,8 @@ theorem readETData_auto {β : Type} (usechk : Bool) (cats : List Cat) (hnd : (ca
       obtain ⟨c, _, rfl⟩ := List.mem_map.mp hrl1
       apply hr
       · intro e; simp only at e hrl2; rw [e] at hrl2; simp at hrl2
+      · refine strict_of_sorted_nodup (sortNat_sorted _) (((sortNat_perm _).nodup_iff).mpr ?_)
+        exact List.Nodup.filter _ (List.nodup_reverse.mpr ((sortedSet_strict its).imp (fun h => Nat.ne_of_lt h)))
       · intro it hit
         rw [mem_sortNat', List.mem_filter] at hit
         simpa using hit.2)
@@ -416,7 +453,8 @@ theorem readETData_explicit {β : Type} (usechk : Bool) (cats : List Cat) (hnd :
     (c : Cat) (hc : c ∈ cats)
     (keys : List String) (hk : keys.Nodup) (cell : Nat → String → Nat → β)
     (reader : Nat → List Nat → Option (Table β))
-    (hr : ∀ l, l ≠ [] → (∀ it ∈ l, inRestart usechk c it = true) → reader c.num l = some (ideal keys cell c.num l))
+    (hr : ∀ l, l ≠ [] → l.Pairwise (· < ·) → (∀ it ∈ l, inRestart usechk c it = true) →
+      reader c.num l = some (ideal keys cell c.num l))
     (its : List Nat) :
     readETData usechk cats (some c.num) its reader
       = if (sortedSet its).filter (fun it => inRestart usechk c it) = [] then none
@@ -424,14 +462,15 @@ theorem readETData_explicit {β : Type} (usechk : Bool) (cats : List Cat) (hnd :
                    aligned keys fun k => ((sortedSet its).filter fun it => inRestart usechk c it).map (cell c.num k)) := by
   unfold readETData
   simp only [find_num hnd hc, itToDoExplicit]
-  generalize sortedSet its = s
+  have hstrict := sortedSet_strict its
+  generalize sortedSet its = s at hstrict
   by_cases he : s.filter (fun it => inRestart usechk c it) = []
   · simp [he, flattenTables, mapOpt]
   · have hmo := mapOpt_reader keys cell reader [(c.num, s.filter fun it => inRestart usechk c it)] (by
       intro rl hrl
       rw [List.mem_singleton] at hrl
       subst hrl
-      exact hr _ he (fun it hit => (List.mem_filter.mp hit).2))
+      exact hr _ he (hstrict.filter _) (fun it hit => (List.mem_filter.mp hit).2))
     have hf : ([(c.num, s.filter fun it => inRestart usechk c it)].filter fun rl => !rl.2.isEmpty)
         = [(c.num, s.filter fun it => inRestart usechk c it)] := by
       simp [List.filter_cons, List.isEmpty_iff, he]
